@@ -56,6 +56,9 @@ func (fr *frame) get(key ssa.Value) Value {
 		if r, ok := fr.in.globals[key]; ok {
 			return r
 		}
+		if r, ok := fr.in.baseGlobals[key]; ok {
+			return r
+		}
 		if key.Pkg != nil && !fr.in.initialised[key.Pkg] && !fr.in.inInit {
 			if !fr.in.globalOK(key) {
 				panic(engineAbort{fmt.Sprintf("read of global %s of package whose init was not run", key)})
@@ -444,6 +447,9 @@ func (in *Interp) visitInstr(fr *frame, instr ssa.Instruction) bool {
 		m := fr.get(instr.Map).(*Map)
 		if m == nil {
 			fr.fault(tb.False, "nil-map-write")
+		}
+		if in.globalMaps != nil && in.globalMaps[m] {
+			in.sharedWrites = append(in.sharedWrites, "map update in "+fr.fname())
 		}
 		m.set(in, in.mapKeyVal(fr.get(instr.Key)), copyVal(fr.get(instr.Value)))
 
@@ -1050,6 +1056,9 @@ func (in *Interp) callBuiltin(fr *frame, cc *ssa.CallCommon, fn *ssa.Builtin, ar
 		panic(engineAbort{fmt.Sprintf("cap of %T", args[0])})
 
 	case "delete":
+		if in.globalMaps != nil && in.globalMaps[args[0].(*Map)] {
+			in.sharedWrites = append(in.sharedWrites, "map delete in "+fr.fname())
+		}
 		args[0].(*Map).del(in, in.mapKeyVal(args[1]))
 		return nil
 
